@@ -1865,6 +1865,15 @@ class DocutilsRenderer(RendererProtocol):
             )
             return [error_msg]
 
+        # a node without a line of its own would take ``document.current_line`` when
+        # it is attached, which by then is the line of the last directive run
+        # inside the body: give it the line of this directive
+        for node in result:
+            if isinstance(node, nodes.Element) and node.line is None:
+                node.line = position
+                if node.source is None:
+                    node.source = self.document["source"]
+
         assert isinstance(
             result, list
         ), f'Directive "{name}" must return a list of nodes.'
